@@ -63,6 +63,7 @@ structure St where
   core : Hp.St                     -- shared state and ghost lists; `core.tasks` is not used (see `abs`)
   ths : List (Th Pc)
   cuts : List CutRec := []         -- ghost, one per returned snapshot
+  tags : List (Nat × Nat) := []    -- ghost, parallel to `core.claimed`: (thread id, call index) of the call that claimed
 
 def taskOf (th : Th Pc) : Option Task := th.pc.bind (·.task)
 
@@ -228,11 +229,13 @@ def item (s : St) : Item → Except String St
         match evStep s.bounds.length s.core s.cuts e pc with
         | .error m => .error m
         | .ok ((c', pc', rv), cuts') =>
+          -- ghost: the event was a claim step iff `claimed` grew; tag the new position with (thread, call index)
+          let tags' := if c'.claimed.length > s.core.claimed.length then s.tags ++ [(e.tid, th.idx)] else s.tags
           match rv with
-          | none => .ok { s with core := c', cuts := cuts', ths := s.ths.set e.tid { th with pc := some pc' } }
+          | none => .ok { s with core := c', cuts := cuts', tags := tags', ths := s.ths.set e.tid { th with pc := some pc' } }
           | some v =>
             if pc'.task.isSome then .error "internal: a completed call still has a task"
-            else .ok { s with core := c', cuts := cuts', ths := s.ths.set e.tid { th with pc := none, retv := some v } }
+            else .ok { s with core := c', cuts := cuts', tags := tags', ths := s.ths.set e.tid { th with pc := none, retv := some v } }
   | .call t i op =>
     match s.ths[t]? with
     | none => .error "no such thread"
